@@ -110,6 +110,12 @@ fn real_print_string(s: &str) -> Result<String, String> {
     })
 }
 
+/// did the real printer choose the block form `"""…"""` for `s` (only strings with a line feed can get it)
+fn printed_as_block(s: &str) -> bool {
+    // the decision of `print_string` (the harness only uses it to CLASSIFY failures; K compares the printed texts themselves)
+    s.contains('\n') && !s.ends_with('"') && !s.ends_with('\\') && s.chars().all(|c| c == '\n' || c == '\t' || !c.is_control())
+}
+
 fn print_just(x: &impl GraphQLPrinter) -> Result<String, String> {
     catch(std::panic::AssertUnwindSafe(|| {
         let mut buf = String::new();
@@ -232,6 +238,22 @@ fn diff_path(a: &Sexp, b: &Sexp, path: &mut Vec<String>) -> Option<(String, Opti
     }
 }
 
+fn str_leaves<'a>(s: &'a Sexp, out: &mut Vec<&'a str>) {
+    match s {
+        Sexp::Str(x) => out.push(x),
+        Sexp::List(v) => v.iter().for_each(|x| str_leaves(x, out)),
+        _ => {}
+    }
+}
+
+/// does the document hold a string that the printer writes in the quoted form with a raw double quote inside
+/// (the open finding "double quote not escaped")? Such a text denotes an unrelated token sequence.
+fn has_unescaped_quote(doc: &Sexp) -> bool {
+    let mut leaves = vec![];
+    str_leaves(doc, &mut leaves);
+    leaves.iter().any(|l| l.contains('"') && !printed_as_block(l))
+}
+
 fn sort_items(doc: &Sexp) -> Sexp {
     match doc {
         Sexp::List(v) if !v.is_empty() => {
@@ -332,7 +354,7 @@ impl<'a> Ctx<'a> {
             let cooked = ok_str(&ans[3 * i + 1]);
             if s.contains('\r') {
                 // a raw CR is normalised to LF by template cooking; the writer does not escape it. The GraphQL printer never
-                // hands a CR to the writer (theorem `printString_no_cr`; the `server` stream checks descriptions with CR end to end)
+                // hands a CR to the writer (theorem `printQuoted_no_cr` + the `canBlock` guard; the `server` stream checks descriptions with CR end to end)
                 self.rep.count("js:outside-O-domain(text contains CR)");
                 if cooked.as_deref() == Some(s.as_str()) {
                     self.rep.notes.push(format!("unexpected: text with CR {} cooked back unchanged", show(s)));
@@ -347,7 +369,7 @@ impl<'a> Ctx<'a> {
     /// does `s` still fail the same way: printed in the same form (block / quoted) and not denoting `s`
     fn string_fails_like(&mut self, s: &str, block: bool, not_a_token: bool) -> bool {
         let Ok(lit) = real_print_string(s) else { return false };
-        if lit.starts_with("\"\"\"") != block {
+        if printed_as_block(s) != block {
             return false;
         }
         let a = ok_str(&self.drv.one(&Sexp::call("gql.decode-string", vec![Sexp::str(lit.as_str())])));
@@ -356,7 +378,7 @@ impl<'a> Ctx<'a> {
 
     fn minimise_string(&mut self, s: &str) -> String {
         let lit = real_print_string(s).unwrap_or_default();
-        let block = lit.starts_with("\"\"\"");
+        let block = printed_as_block(s);
         let not_a_token = ok_str(&self.drv.one(&Sexp::call("gql.decode-string", vec![Sexp::str(lit.as_str())]))).is_none();
         let mut cur: Vec<char> = s.chars().collect();
         let mut progress = true;
@@ -379,24 +401,19 @@ impl<'a> Ctx<'a> {
         cur.iter().map(|c| if c.is_alphanumeric() { 'a' } else { *c }).collect()
     }
 
+    /// class of a string that did not come back: by the form the real printer chose for it
     fn string_class(&mut self, expected: &str, got: Option<&str>) -> String {
-        if expected.contains('\n') {
-            if let Some(g) = got {
-                let bv = ok_str(&self.drv.one(&Sexp::call("gql.block-value", vec![Sexp::str(expected)])));
-                if bv.as_deref() == Some(g) {
-                    return "multi-line-string-reinterpreted-as-block-string".into();
-                }
-            }
-            if expected.contains('\r') {
-                return "multi-line-string-with-cr".into();
-            }
-            return "multi-line-string".into();
+        let quoted = !printed_as_block(expected);
+        if quoted {
+            return if expected.contains('"') { "double-quote-not-escaped".into() } else { "quoted-string-altered".into() };
         }
-        let mut f = vec![];
-        if expected.contains('"') { f.push("quote") }
-        if expected.contains('\\') { f.push("backslash") }
-        if f.is_empty() { f.push("other") }
-        format!("single-line-string:{}", f.join("+"))
+        if let Some(g) = got {
+            let bv = ok_str(&self.drv.one(&Sexp::call("gql.block-value", vec![Sexp::str(expected)])));
+            if bv.as_deref() == Some(g) {
+                return "multi-line-string-reinterpreted-as-block-string".into();
+            }
+        }
+        "block-string-altered".into()
     }
 
     fn check_strings(&mut self, strings: &[String]) {
@@ -424,7 +441,7 @@ impl<'a> Ctx<'a> {
                     continue;
                 }
             };
-            self.rep.count(if real.starts_with("\"\"\"") { "string:form:block" } else { "string:form:quoted" });
+            self.rep.count(if printed_as_block(s) { "string:form:block" } else { "string:form:quoted" });
             let model = ok_str(&ans[2 * i]).unwrap_or_else(|| "<bad answer>".into());
             if model != real {
                 self.rep.fail("K", "print-string", &format!("print_string({}): code {} model {}", show(s), show(&real), show(&model)), case.clone());
@@ -437,7 +454,7 @@ impl<'a> Ctx<'a> {
                 let min = self.minimise_string(s);
                 let min_lit = real_print_string(&min).unwrap_or_default();
                 let min_dec = ok_str(&self.drv.one(&Sexp::call("gql.decode-string", vec![Sexp::str(min_lit.as_str())])));
-                let class = if min_dec.is_none() { format!("not-a-string-token:{}", self.string_class(&min, None)) } else { self.string_class(&min, min_dec.as_deref()) };
+                let class = self.string_class(&min, min_dec.as_deref());
                 self.rep.fail(
                     "O",
                     &format!("string:{class}"),
@@ -497,9 +514,20 @@ impl<'a> Ctx<'a> {
                     Err(p) => Err((format!("parser panic: {p}"), usize::MAX)),
                 },
             };
+            let poisoned = has_unescaped_quote(&j.expected);
             match parsed {
+                Err((msg, line)) if poisoned => {
+                    self.rep.fail("O", &format!("{}:double-quote-not-escaped", j.stream_sig),
+                        &format!("{}: a string with a double quote is printed without escaping it; the text does not parse ({}) at line {}: {}", j.what, msg.lines().next().unwrap_or(""), line, show(text.lines().nth(line).unwrap_or(""))), j.case);
+                }
                 Err((msg, line)) => {
-                    let l = text.lines().nth(line).unwrap_or("");
+                    // the last non-blank line at or before the reported position
+                    let all_lines: Vec<&str> = text.lines().collect();
+                    let mut li = line.min(all_lines.len().saturating_sub(1));
+                    while li > 0 && all_lines.get(li).map_or(true, |l| l.trim().is_empty()) {
+                        li -= 1;
+                    }
+                    let l = all_lines.get(li).copied().unwrap_or("");
                     const KW: [&str; 16] = ["extend", "schema", "union", "type", "interface", "enum", "input", "scalar", "directive", "query", "mutation", "subscription", "fragment", "import", "implements", "on"];
                     let words: Vec<&str> = l.split(|c: char| !c.is_ascii_alphabetic()).filter(|w| KW.contains(w)).take(2).collect();
                     let ctx = if l.contains('"') { "near-string-literal".to_string() } else if words.is_empty() { "other".into() } else { words.join("-") };
@@ -519,6 +547,7 @@ impl<'a> Ctx<'a> {
                     let mut path = vec![];
                     if let Some((p, leaves)) = diff_path(&j.expected, &got, &mut path) {
                         let (sig, detail) = match leaves {
+                            _ if poisoned => (format!("{}:double-quote-not-escaped", j.stream_sig), format!("a string with a double quote is printed without escaping it; the text parses to a different document (first difference at {p})")),
                             Some((e, g)) => {
                                 let class = self.string_class(&e, Some(&g));
                                 (format!("{}:{}", j.stream_sig, class), format!("string {} came back as {} at {p}", show(&e), show(&g)))
@@ -679,18 +708,20 @@ impl<'a> Ctx<'a> {
         if plugin {
             yaml.push_str("    plugins:\n      - \"nitrogql:model-plugin\"\n");
         }
-        yaml.push_str("    generate:\n      schemaOutput: \"out/schema.d.ts\"\n      serverGraphqlOutput: \"out/server.ts\"\n");
+        yaml.push_str("    generate:\n      schemaOutput: \"out/schema.d.ts\"\n      serverGraphqlOutput: \"out/server.ts\"\n      type:\n        scalarTypes:\n          Date: string\n          JSON: unknown\n");
         std::fs::write(root.join("graphql.config.yaml"), yaml).expect("write config");
-        let case = json!({"kind": "cli", "texts": texts, "model_plugin": plugin, "origin": origin});
+        let case = json!({"kind": "cli", "texts": texts, "model_plugin": plugin, "origin": origin.clone()});
         let out = std::process::Command::new(&cli).arg("generate").current_dir(&root).output();
         let module = std::fs::read_to_string(root.join("out/server.ts"));
         let _ = std::fs::remove_dir_all(&root);
-        let (Ok(out), Ok(module)) = (out, module) else {
-            self.rep.count("cli:no-output(skipped)");
-            if self.args.replay.is_some() {
-                self.rep.notes.push("cli produced no server module".into());
+        let (out, module) = match (out, module) {
+            (Ok(out), Ok(module)) => (out, module),
+            (out, _) => {
+                self.rep.count("cli:no-output(skipped)");
+                let msg = out.map(|o| format!("{} {}", String::from_utf8_lossy(&o.stdout), String::from_utf8_lossy(&o.stderr))).unwrap_or_else(|e| e.to_string());
+                self.rep.notes.push(format!("cli produced no server module for {origin}: {}", msg.chars().take(400).collect::<String>()));
+                return;
             }
-            return;
         };
         if !out.status.success() {
             self.rep.count("cli:nonzero-exit(skipped)");
@@ -828,6 +859,97 @@ fn decorate(rng: &mut Rng, schema: &mut SchemaModel, plugin: bool, unfaithful: b
     }
 }
 
+fn unquote(s: &mut String) {
+    if s.contains('"') {
+        *s = s.replace('"', "'");
+    }
+}
+fn unquote_val(v: &mut Val) {
+    match v {
+        Val::Str(s, _) => unquote(s),
+        Val::List(vs, _) => vs.iter_mut().for_each(unquote_val),
+        Val::Obj(fs, _) => fs.iter_mut().for_each(|a| unquote_val(&mut a.value)),
+        _ => {}
+    }
+}
+fn unquote_dirs(ds: &mut [Dir]) {
+    for d in ds {
+        d.args.iter_mut().for_each(|a| unquote_val(&mut a.value));
+    }
+}
+fn unquote_iv(v: &mut InputValueDef) {
+    v.desc.iter_mut().for_each(unquote);
+    v.default.iter_mut().for_each(unquote_val);
+    unquote_dirs(&mut v.dirs);
+}
+/// replace every double quote inside the strings of a schema model by a single quote (keeps the document clear of the
+/// open finding "double quote not escaped", so that everything else in it is compared)
+fn unquote_tsdoc(d: &mut TsDoc) {
+    for item in d.items.iter_mut() {
+        match item {
+            TsItem::TypeDef(t) | TsItem::TypeExt(t) => {
+                t.desc.iter_mut().for_each(unquote);
+                unquote_dirs(&mut t.dirs);
+                for f in t.fields.iter_mut() {
+                    f.desc.iter_mut().for_each(unquote);
+                    unquote_dirs(&mut f.dirs);
+                    f.args.iter_mut().for_each(unquote_iv);
+                }
+                for v in t.values.iter_mut() {
+                    v.desc.iter_mut().for_each(unquote);
+                    unquote_dirs(&mut v.dirs);
+                }
+                t.inputs.iter_mut().for_each(unquote_iv);
+            }
+            TsItem::DirectiveDef(d) => {
+                d.desc.iter_mut().for_each(unquote);
+                d.args.iter_mut().for_each(unquote_iv);
+            }
+            TsItem::SchemaDef(s) | TsItem::SchemaExt(s) => {
+                s.desc.iter_mut().for_each(unquote);
+                unquote_dirs(&mut s.dirs);
+            }
+        }
+    }
+}
+fn unquote_sels(ss: &mut [Sel]) {
+    for s in ss {
+        match s {
+            Sel::Field { args, dirs, sel, .. } => {
+                args.iter_mut().for_each(|a| unquote_val(&mut a.value));
+                unquote_dirs(dirs);
+                if let Some(sel) = sel {
+                    unquote_sels(sel);
+                }
+            }
+            Sel::Spread { dirs, .. } => unquote_dirs(dirs),
+            Sel::Inline { dirs, sel, .. } => {
+                unquote_dirs(dirs);
+                unquote_sels(sel);
+            }
+        }
+    }
+}
+fn unquote_doc(d: &mut Doc) {
+    for def in d.defs.iter_mut() {
+        match def {
+            ExecDef::Op(o) => {
+                for v in o.vars.iter_mut() {
+                    v.default.iter_mut().for_each(unquote_val);
+                    unquote_dirs(&mut v.dirs);
+                }
+                unquote_dirs(&mut o.dirs);
+                unquote_sels(&mut o.sel);
+            }
+            ExecDef::Frag(f) => {
+                unquote_dirs(&mut f.dirs);
+                unquote_sels(&mut f.sel);
+            }
+            ExecDef::Import(i) => unquote(&mut i.path),
+        }
+    }
+}
+
 fn gen_cfg(rng: &mut Rng) -> GenCfg {
     let mut cfg = GenCfg::default();
     cfg.hostile_text = true;
@@ -843,6 +965,11 @@ fn gen_schema_texts(rng: &mut Rng, plugin: bool, unfaithful: bool) -> (Vec<Strin
     let mut schema = gen_schema(rng, &cfg);
     let mut feats = vec![];
     decorate(rng, &mut schema, plugin, unfaithful, &mut feats);
+    if !rng.chance(1, 5) {
+        unquote_tsdoc(&mut schema.doc);
+    } else {
+        feats.push("strings-may-hold-double-quotes".into());
+    }
     let mut doc = if rng.coin() {
         feats.push("split-into-extensions".into());
         split_into_extensions(rng, &schema)
@@ -1009,6 +1136,11 @@ fn main() {
             if rng.chance(1, 5) {
                 doc.defs.insert(0, ExecDef::Import(ImportDef { targets: vec![Some(("F".into(), P::default())), None], path: hostile_text(&mut rng, false).replace('\n', " "), pos: P::default() }));
                 ctx.rep.count("op:feature:import");
+            }
+            if !rng.chance(1, 5) {
+                unquote_doc(&mut doc);
+            } else {
+                ctx.rep.count("op:feature:strings-may-hold-double-quotes");
             }
             let style = if rng.chance(1, 3) { Style::noisy() } else { Style::canonical() };
             let (text, _) = render_doc(&mut doc, style, rng.fork());
